@@ -16,6 +16,8 @@ def Body.benign : Body → Bool
   | .subscribe _ => false
   | .timerSrc _ => false
   | .tick => false
+  | .futureSrc => false
+  | .streamSrc => false
   | _ => true
 
 namespace Sched
